@@ -138,7 +138,7 @@ class AbstractBenchParser(AbstractParser, metaclass=abc.ABCMeta):
             if (
                 _operator == gate.ALWAYS_FALSE.name
                 or _operator == gate.ALWAYS_TRUE.name
-            ):
+            ) and _operands == ['']:
                 return self._processings[_operator](_out)
             return self._processings[_operator](_out, *_operands)
 
@@ -220,11 +220,11 @@ class AbstractBenchParser(AbstractParser, metaclass=abc.ABCMeta):
         raise NotImplementedError()
 
     @abc.abstractmethod
-    def _process_always_true(self, out: str):
+    def _process_always_true(self, out: str, *args: str):
         raise NotImplementedError()
 
     @abc.abstractmethod
-    def _process_always_false(self, out: str):
+    def _process_always_false(self, out: str, *args: str):
         raise NotImplementedError()
 
 
@@ -319,8 +319,8 @@ class BenchToCircuit(AbstractBenchParser):
     def _process_riff(self, out: str, arg1: str, arg2: str):
         return self._add_gate(out, gate.RIFF, arg1, arg2)
 
-    def _process_always_true(self, out: str):
-        return self._add_gate(out, gate.ALWAYS_TRUE)
+    def _process_always_true(self, out: str, *args: str):
+        return self._add_gate(out, gate.ALWAYS_TRUE, *args)
 
-    def _process_always_false(self, out: str):
-        return self._add_gate(out, gate.ALWAYS_FALSE)
+    def _process_always_false(self, out: str, *args: str):
+        return self._add_gate(out, gate.ALWAYS_FALSE, *args)
